@@ -143,6 +143,20 @@ pub mod tm12 {
         { unimplemented!() }
     }
 
+
+    impl<'a, K, V> Entry<'a, K, V> {
+        /// std: "Ensures a value is in the entry by inserting the default value if empty, and returns a mutable
+        /// reference to the value in the entry"
+        #[verifier::external_body]
+        pub fn or_default(self) -> (r: &'a mut V) where V: Default
+            ensures
+                self is Vacant ==> call_ensures(V::default, (), *r)
+                    && final(self->Vacant_0.map)@ == old(self->Vacant_0.map)@.insert(self->Vacant_0.key, *final(r)),
+                self is Occupied ==> *r == old(self->Occupied_0.map)@[self->Occupied_0.key]
+                    && final(self->Occupied_0.map)@ == old(self->Occupied_0.map)@.insert(self->Occupied_0.key, *final(r)),
+        { unimplemented!() }
+    }
+
     impl<K, V> BTreeMap<K, V> {
         pub uninterp spec fn view(&self) -> Map<K, V>;
 
@@ -207,4 +221,120 @@ pub mod tm12 {
     }
     #[verifier::external_body]
     pub fn index_set_new<T>() -> (r: IndexSet<T>) ensures r@ == Set::<T>::empty() { unimplemented!() }
+
+
+    // ================================================================================ BTreeSet ==
+    #[verifier::external_body]
+    #[verifier::reject_recursive_types(T)]
+    pub struct BTreeSet<T> { t: core::marker::PhantomData<T> }
+    impl<T> BTreeSet<T> {
+        pub uninterp spec fn view(&self) -> Set<T>;
+        #[verifier::external_body]
+        pub fn contains(&self, value: &T) -> (r: bool) ensures r == self@.contains(*value) { unimplemented!() }
+        #[verifier::external_body]
+        pub fn insert(&mut self, value: T) -> (r: bool)
+            ensures final(self)@ == old(self)@.insert(value), r == !old(self)@.contains(value)
+        { unimplemented!() }
+    }
+    impl<T> Default for BTreeSet<T> {
+        #[verifier::external_body]
+        fn default() -> (r: Self) ensures r@ == Set::<T>::empty() { unimplemented!() }
+    }
+    /// by-value iteration of a set: every element exactly once
+    #[verifier::external_body]
+    #[verifier::reject_recursive_types(T)]
+    pub struct SetIntoIter<T> { t: core::marker::PhantomData<T> }
+    impl<T> SetIntoIter<T> {
+        pub uninterp spec fn rest(&self) -> Seq<T>;
+    }
+    impl<T> Iterator for SetIntoIter<T> {
+        type Item = T;
+        #[verifier::external_body]
+        fn next(&mut self) -> (r: Option<T>) { unimplemented!() }
+    }
+    impl<T> vstd::std_specs::iter::IteratorSpecImpl for SetIntoIter<T> {
+        open spec fn obeys_prophetic_iter_laws(&self) -> bool { true }
+        open spec fn remaining(&self) -> Seq<T> { self.rest() }
+        open spec fn will_return_none(&self) -> bool { true }
+        open spec fn peek(&self, index: int) -> Option<T> { if 0 <= index < self.rest().len() { Some(self.rest()[index]) } else { None } }
+        open spec fn decrease(&self) -> Option<nat> { Some(self.rest().len()) }
+    }
+    impl<T> core::iter::IntoIterator for BTreeSet<T> {
+        type Item = T;
+        type IntoIter = SetIntoIter<T>;
+        #[verifier::external_body]
+        fn into_iter(self) -> (r: SetIntoIter<T>) ensures enumerates_set(r.rest(), self@) { unimplemented!() }
+    }
+    impl<T> core::iter::IntoIterator for IndexSet<T> {
+        type Item = T;
+        type IntoIter = SetIntoIter<T>;
+        #[verifier::external_body]
+        fn into_iter(self) -> (r: SetIntoIter<T>) ensures enumerates_set(r.rest(), self@) { unimplemented!() }
+    }
+
+    // ============================================================== by-value entry iterator ==
+    /// `into_iter()` / `for (k, v) in map` of either map type: yields the owned pairs `rest()`; every binding
+    /// exactly once (BTreeMap: ascending key order, IndexMap: insertion order -- not exposed here)
+    #[verifier::external_body]
+    #[verifier::reject_recursive_types(K)]
+    #[verifier::reject_recursive_types(V)]
+    pub struct IntoIter<K, V> { k: core::marker::PhantomData<(K, V)> }
+    impl<K, V> IntoIter<K, V> {
+        pub uninterp spec fn rest(&self) -> Seq<(K, V)>;
+    }
+    impl<K, V> Iterator for IntoIter<K, V> {
+        type Item = (K, V);
+        #[verifier::external_body]
+        fn next(&mut self) -> (r: Option<(K, V)>) { unimplemented!() }
+    }
+    impl<K, V> vstd::std_specs::iter::IteratorSpecImpl for IntoIter<K, V> {
+        open spec fn obeys_prophetic_iter_laws(&self) -> bool { true }
+        open spec fn remaining(&self) -> Seq<(K, V)> { self.rest() }
+        open spec fn will_return_none(&self) -> bool { true }
+        open spec fn peek(&self, index: int) -> Option<(K, V)> { if 0 <= index < self.rest().len() { Some(self.rest()[index]) } else { None } }
+        open spec fn decrease(&self) -> Option<nat> { Some(self.rest().len()) }
+    }
+    impl<K, V> core::iter::IntoIterator for IndexMap<K, V> {
+        type Item = (K, V);
+        type IntoIter = IntoIter<K, V>;
+        #[verifier::external_body]
+        fn into_iter(self) -> (r: IntoIter<K, V>) ensures enumerates(r.rest(), self@) { unimplemented!() }
+    }
+    impl<K, V> core::iter::IntoIterator for BTreeMap<K, V> {
+        type Item = (K, V);
+        type IntoIter = IntoIter<K, V>;
+        #[verifier::external_body]
+        fn into_iter(self) -> (r: IntoIter<K, V>) ensures enumerates(r.rest(), self@) { unimplemented!() }
+    }
+
+    /// one of the first `i` entries of `s` has key `k`
+    pub open spec fn seen<K, V>(s: Seq<(K, V)>, i: int, k: K) -> bool { exists|j: int| 0 <= j < i && (#[trigger] s[j]).0 == k }
+    pub proof fn lemma_seen_step<K, V>(s: Seq<(K, V)>, i: int, k: K)
+        requires 0 <= i < s.len()
+        ensures seen(s, i + 1, k) <==> (seen(s, i, k) || s[i].0 == k)
+    {
+        if seen(s, i + 1, k) {
+            let j = choose|j: int| 0 <= j < i + 1 && (#[trigger] s[j]).0 == k;
+            if j < i { assert(seen(s, i, k)); }
+        }
+        if seen(s, i, k) {
+            let j = choose|j: int| 0 <= j < i && (#[trigger] s[j]).0 == k;
+            assert(0 <= j < i + 1 && s[j].0 == k);
+        }
+        if s[i].0 == k { assert(0 <= i < i + 1 && s[i].0 == k); }
+    }
+    pub proof fn lemma_seen_all<K, V>(s: Seq<(K, V)>, m: Map<K, V>, k: K)
+        requires enumerates(s, m)
+        ensures seen(s, s.len() as int, k) <==> m.contains_key(k)
+    {
+        if m.contains_key(k) {
+            assert(has_key(s, k));
+            let i = choose|i: int| 0 <= i < s.len() && (#[trigger] s[i]).0 == k;
+            assert(0 <= i < s.len() && s[i].0 == k);
+        }
+        if seen(s, s.len() as int, k) {
+            let j = choose|j: int| 0 <= j < s.len() && (#[trigger] s[j]).0 == k;
+            assert(m.contains_key(s[j].0));
+        }
+    }
 }
